@@ -4,7 +4,8 @@ A real `desper.SimpleLoop(time_function=tf)` is started 1-3 times in a row on th
 closure that hands out symbolic clock readings t0 <= t1 <= ... (t_k = t_{k-1} + d_k, d_k >= 0, all SReal).
 Every world carries `n_procs` script processors; at every process() call the processor first checks its dt
 against the readings and then performs a symbolic action: nothing / raise Quit / quit_loop() /
-quit_loop(current world) / quit_loop(other world) / switch to the other world / raise ValueError.
+quit_loop(current world) / quit_loop(other world) / switch to the other world / raise ValueError / (in the
+`direct` configurations) call the public loop.switch(other handle) in mid-frame, which returns normally.
 After each start() the harness checks how it ended.
 """
 import desper
@@ -77,12 +78,13 @@ TERMINATORS = ['quit', 'quit_loop', 'quit_loop_cur', 'raise']
 
 
 class Ctx:
-    def __init__(self, sp, frames, n_procs, n_worlds, raw):
+    def __init__(self, sp, frames, n_procs, n_worlds, raw, direct=False):
         self.sp = sp
         self.frames = frames
         self.n_procs = n_procs
         self.n_worlds = n_worlds
         self.raw = raw
+        self.direct = direct
         self.keep = []
         self.names = []
         self.quits = []             # worlds whose listener heard on_quit, in order
@@ -96,6 +98,8 @@ class Ctx:
         self.calls = 0              # processor calls since the last reading
         self.stop = None            # None | ('quit', target or None, enabled) | ('raise', exc)
         self.switched = False
+        self.abandoned = False      # the running frame was left by a switch exception
+        self.frame_world = None     # the world this iteration processes (current world when it began)
 
     def show(self, x):
         """Cheap rendering: z3's pretty printer dominated the run time; replays show the numbers."""
@@ -116,6 +120,10 @@ class Ctx:
             sp.check(self.calls >= 1, 'process-every-iteration',
                      'start %d: a new clock reading was taken but no processor ran since the previous one'
                      % self.start_no)
+            if not self.abandoned:
+                sp.check(self.calls == self.n_procs, 'frame-runs-to-its-end',
+                         'start %d: nothing was raised in the previous frame but only %d of %d processors ran'
+                         % (self.start_no, self.calls, self.n_procs))
         if self.readings >= self.frames:
             raise ScriptOverrun('frame %d of %d' % (self.readings, self.frames))
         k = len(self.ticks)
@@ -127,6 +135,7 @@ class Ctx:
         self.ticks.append(t)
         self.readings += 1
         self.calls = 0
+        self.abandoned = False
         sp.note('start %d frame %d: clock reading #%d = %s' % (self.start_no, self.readings - 1, k, self.show(t)))
         return t
 
@@ -141,10 +150,16 @@ class Ctx:
                  '%s: processor call #%d of this iteration (world processed twice, or a processor skipped)'
                  % (where, self.calls))
         self.calls += 1
-        exp_world = self.handles[self.cur]()
+        cur_world = self.handles[self.cur]()
+        if self.calls == 1:
+            # the iteration processes the world that is current when it begins; a direct loop.switch() later in
+            # the frame changes current_world at once but the rest of this frame still belongs to this world
+            self.frame_world = cur_world
+        exp_world = self.frame_world
         sp.check(proc.world is exp_world, 'processes-current-world',
                  '%s: process() reached world %s, expected %s' % (where, self.name(proc.world), self.name(exp_world)))
-        sp.check(self.loop.current_world is exp_world, 'current-world-during-frame', where)
+        sp.check(self.loop.current_world is cur_world, 'current-world-during-frame', where)
+        sp.check(self.loop.current_world_handle is self.handles[self.cur], 'current-handle-during-frame', where)
         # ---- dt oracle
         if self.readings == 1:
             ok = (dt == 0)
@@ -161,6 +176,8 @@ class Ctx:
             sp.note('%s: dt = %s (want %s)' % (where, self.show(dt), self.show(exp)))
             if self.switched:
                 sp.cover('dt-across-switch')
+            if self.direct_switched:
+                sp.cover('dt-across-direct-switch')
             sp.cover('dt-later-frame')
             sp.check(dt == exp, 'dt-exact', '%s: dt %s is not the difference of the last two readings %s'
                      % (where, self.show(dt), self.show(exp)))
@@ -173,13 +190,27 @@ class Ctx:
                 opts.append('quit_loop_other')
             if not last_proc:
                 opts.insert(0, 'nothing')
+                if self.direct:
+                    opts.insert(1, 'direct_switch')
         else:
             opts = ['nothing'] + TERMINATORS
             if self.n_worlds > 1:
                 opts += ['quit_loop_other', 'switch']
+                if self.direct:
+                    opts.append('direct_switch')
         a = sp.pick(opts, 'act[s%d,f%d,p%d]' % (self.start_no, self.readings - 1, proc.index))
         sp.note('%s: action %s' % (where, a))
         if a == 'nothing':
+            return
+        if a == 'direct_switch':
+            # public Loop.switch called in mid-frame: returns normally, the frame goes on
+            self.cur = 1 - self.cur
+            self.direct_switched = True
+            sp.cover('direct-switch')
+            try:
+                self.loop.switch(self.handles[self.cur])
+            except Exception as ex:         # noqa
+                sp.fail('direct-switch-raises', '%s: loop.switch() raised %r' % (where, ex))
             return
         if not last_proc:
             sp.cover('act-nonlast-proc')
@@ -197,7 +228,7 @@ class Ctx:
                 target = self.handles[1 - self.cur]()
                 sp.cover('on_quit-given-other')
             else:
-                target = exp_world
+                target = cur_world
                 sp.cover('on_quit-current' if a == 'quit_loop' else 'on_quit-given-current')
             self.stop = ('quit', target, target.dispatch_enabled)
             self.quits_before = list(self.quits)
@@ -209,6 +240,7 @@ class Ctx:
         if a == 'switch':
             self.cur = 1 - self.cur
             self.switched = True
+            self.abandoned = True
             sp.cover('switch')
             h = self.handles[self.cur]
             if self.raw:
@@ -218,9 +250,9 @@ class Ctx:
         raise AssertionError(a)
 
 
-def h_loop(sp, starts=2, frames=3, n_procs=2, n_worlds=2, raw=False):
+def h_loop(sp, starts=2, frames=3, n_procs=2, n_worlds=2, raw=False, direct=False):
     per_start = list(frames) if isinstance(frames, (list, tuple)) else [frames] * starts
-    ctx = Ctx(sp, per_start[0], n_procs, n_worlds, raw)
+    ctx = Ctx(sp, per_start[0], n_procs, n_worlds, raw, direct)
     loop = desper.SimpleLoop(time_function=ctx.tf)
     ctx.loop = loop
     saved = desper.default_loop
@@ -235,6 +267,8 @@ def h_loop(sp, starts=2, frames=3, n_procs=2, n_worlds=2, raw=False):
             ctx.calls = 0
             ctx.stop = None
             ctx.switched = False
+            ctx.direct_switched = False
+            ctx.abandoned = False
             sp.note('--- start() #%d' % s)
             outcome = None
             try:
@@ -290,6 +324,14 @@ HARNESSES = {
                            'exception', 'raw-quit', 'on_quit-current', 'on_quit-given-current',
                            'on_quit-given-other', 'act-nonlast-proc', 'switch'],
                  concolic=True),
+    'loop-direct': dict(fn=h_loop,
+                        nontrivial=['dt-later-frame', 'restart', 'dt-across-switch', 'dt-across-direct-switch',
+                                    'exception', 'on_quit-given-other'],
+                        required=['dt-later-frame', 'restart-after-exception', 'restart-after-quit',
+                                  'dt-across-switch', 'dt-across-direct-switch', 'direct-switch', 'exception',
+                                  'raw-quit', 'on_quit-current', 'on_quit-given-current', 'on_quit-given-other',
+                                  'switch'],
+                        concolic=True),
     'loop-1p': dict(fn=h_loop,
                     nontrivial=['dt-later-frame', 'restart', 'dt-across-switch', 'exception', 'on_quit-given-other'],
                     required=['dt-later-frame', 'restart-after-exception', 'restart-after-quit', 'dt-across-switch',
@@ -310,9 +352,11 @@ HARNESSES = {
 
 TIERS = {
     'quick': [
-        ('loop', dict(starts=2, frames=3, n_procs=2, n_worlds=2, raw=False)),
-        ('loop', dict(starts=2, frames=2, n_procs=2, n_worlds=2, raw=True)),
+        ('loop', dict(starts=2, frames=(3, 2), n_procs=2, n_worlds=2, raw=False)),
+        ('loop', dict(starts=2, frames=(2, 3), n_procs=2, n_worlds=2, raw=False)),
+        ('loop', dict(starts=2, frames=(2, 2), n_procs=2, n_worlds=2, raw=True)),
         ('loop1', dict(starts=3, frames=2, n_procs=1, n_worlds=1)),
+        ('loop-direct', dict(starts=2, frames=(2, 2), n_procs=2, n_worlds=2, raw=False, direct=True)),
     ],
     'thorough': [
         ('loop', dict(starts=2, frames=(4, 2), n_procs=2, n_worlds=2, raw=False)),
@@ -324,6 +368,9 @@ TIERS = {
         ('loop-1p', dict(starts=2, frames=(5, 5), n_procs=1, n_worlds=2, raw=False)),
         ('loop-single', dict(starts=1, frames=(6,), n_procs=2, n_worlds=2, raw=False)),
         ('loop', dict(starts=2, frames=(2, 2), n_procs=3, n_worlds=2, raw=False)),
+        ('loop-direct', dict(starts=2, frames=(3, 2), n_procs=2, n_worlds=2, raw=False, direct=True)),
+        ('loop-direct', dict(starts=2, frames=(2, 2), n_procs=2, n_worlds=2, raw=True, direct=True)),
+        ('loop-direct', dict(starts=3, frames=(2, 2, 2), n_procs=1, n_worlds=2, raw=False, direct=True)),
     ],
 }
 BUDGET_S = {'quick': 120, 'thorough': 1500}
@@ -341,11 +388,13 @@ RULE = ('one evaluation = one feasible path (a complete script of actions for ev
         'of every start); non-trivial = the path checked a dt of a later frame, restarted the loop, carried a dt '
         'across a world switch, propagated an exception or delivered on_quit to a given non-current world')
 BOUNDS = {
-    'quick': '2 starts x <=3 frames x 2 processors x 2 worlds (desper.switch); 2 starts x <=2 frames (raw '
-             'SwitchWorld); 3 starts x <=2 frames x 1 processor x 1 world; clock readings unbounded reals',
+    'quick': '2 starts x (<=3,<=2) and (<=2,<=3) frames x 2 processors x 2 worlds (desper.switch); 2 starts x <=2 frames (raw '
+             'SwitchWorld); 3 starts x <=2 frames x 1 processor x 1 world; 2 starts x <=2 frames x 2 processors with '
+             'the extra action "call loop.switch(other) directly"; clock readings unbounded reals',
     'thorough': 'frames per start (4,2), (2,4), (3,3) x 2 procs (desper.switch); (3,3) raw SwitchWorld; 3 starts '
                 '(2,2,2) x 2 procs; 3 starts (3,3,3) x 1 proc; (5,5) x 1 proc; 1 start x <=6 frames x 2 procs; '
-                '(2,2) x 3 procs; always 2 worlds; clock readings unbounded reals',
+                '(2,2) x 3 procs; with direct loop.switch(): (3,2) x 2 procs, (2,2) x 2 procs raw, (2,2,2) x 1 proc; '
+                'always 2 worlds; clock readings unbounded reals',
 }
 ASSUMPTIONS = [
     'the time function is read once per iteration (as SimpleLoop does); readings are non-decreasing exact reals '
@@ -357,6 +406,9 @@ ASSUMPTIONS = [
     'desper.default_loop is pointed at the loop under test for the duration of a path (quit_loop() / switch() '
     'without a world look there) and restored afterwards',
     'the last permitted frame of every start must end in Quit / quit_loop / ValueError (bounded scripts)',
+    'a direct loop.switch(handle) call in mid-frame changes current_world/current_world_handle at once; the '
+    'remaining processors of that frame still run in the world the iteration began with, the next iteration '
+    'processes the new current world; nothing is asserted about dispatching of the world switched away from',
 ]
 OUTSIDE = ['more frames / starts / processors than the bounds', 'time functions that go backwards or return '
            'non-numbers', 'Quit raised by event handlers while on_quit is being dispatched',
